@@ -846,16 +846,18 @@ func (r *e1run) checkInit(k int) {
 			switch c := it.Codec.(type) {
 			case *fmp4.CodecH264:
 				kindOK = isH264(t.Kind)
-				psOK = bytes.Equal(c.SPS, h264ParamsOf(t.Kind)[par].sps) && bytes.Equal(c.PPS, h264ParamsOf(t.Kind)[par].pps)
+				psOK = bytes.Equal(c.SPS, r.cfg.pset(t.Kind, par).sps) && bytes.Equal(c.PPS, r.cfg.pset(t.Kind, par).pps)
 			case *fmp4.CodecH265:
 				kindOK = t.Kind == "h265"
-				psOK = bytes.Equal(c.SPS, h265Params[par].sps) && bytes.Equal(c.PPS, h265Params[par].pps) && bytes.Equal(c.VPS, h265Params[par].vps)
+				psOK = bytes.Equal(c.SPS, r.cfg.pset(t.Kind, par).sps) && bytes.Equal(c.PPS, r.cfg.pset(t.Kind, par).pps) && bytes.Equal(c.VPS, r.cfg.pset(t.Kind, par).vps)
 			case *fmp4.CodecAV1:
 				kindOK = t.Kind == "av1"
 				psOK = bytes.Equal(av1StripSizes([][]byte{c.SequenceHeader})[0], av1Params[par].seqHdr)
 			case *fmp4.CodecVP9:
 				kindOK = t.Kind == "vp9"
-				psOK = c.Width == vp9Params[par].width && c.Height == vp9Params[par].height
+				ps := r.cfg.pset("vp9", par)
+				psOK = c.Width == ps.width && c.Height == ps.height && int(c.Profile) == ps.profile && int(c.BitDepth) == ps.bitDepth &&
+					int(c.ChromaSubsampling) == ps.chroma && c.ColorRange == ps.colorRange
 			case *fmp4.CodecMPEG4Audio:
 				kindOK = strings.HasPrefix(t.Kind, "aac")
 				if c.Config.SampleRate != t.clock() {
